@@ -70,6 +70,13 @@ fn run_n(n: usize, t: &DTy, chunks: &[Vec<u8>], by_ref: bool) -> Option<Result<V
         16 => run_acc::<16>(t, chunks, by_ref),
         32 => run_acc::<32>(t, chunks, by_ref),
         64 => run_acc::<64>(t, chunks, by_ref),
+        255 => run_acc::<255>(t, chunks, by_ref),
+        256 => run_acc::<256>(t, chunks, by_ref),
+        257 => run_acc::<257>(t, chunks, by_ref),
+        258 => run_acc::<258>(t, chunks, by_ref),
+        300 => run_acc::<300>(t, chunks, by_ref),
+        512 => run_acc::<512>(t, chunks, by_ref),
+        1024 => run_acc::<1024>(t, chunks, by_ref),
         _ => return None,
     })
 }
@@ -266,6 +273,48 @@ pub fn gen_acc(r: &mut Rng, thorough: bool, overflow: bool, out: &mut Vec<String
                     cs.insert(k, Vec::new());
                 }
                 out.push(fmt_acc(n, t, &cs));
+            }
+        }
+    }
+    // long frames (more than one COBS block) in large accumulators: delivered whole, cut at every interesting
+    // position, byte by byte, after garbage, after another frame
+    let big_caps = [255usize, 256, 257, 258, 300, 512, 1024];
+    let plens: Vec<usize> = if thorough { (248..=260).chain(504..=514).collect() } else { vec![250, 252, 253, 254, 255, 256, 300, 506, 508, 510] };
+    for (pi, plen) in plens.iter().enumerate() {
+        for zero_free in [true, false] {
+            let body: Vec<u8> = (0..*plen).map(|i| if zero_free || i % 97 != 5 { 1 + r.below(255) as u8 } else { 0 }).collect();
+            let (t, v) = if pi % 2 == 0 { (DTy::Bytes, DVal::Bytes(body)) } else { (DTy::Tuple(vec![DTy::Bytes, DTy::U(8)]), DVal::Tuple(vec![DVal::Bytes(body), DVal::U(8, 9)])) };
+            let f = match postcard::to_allocvec_cobs(&v) {
+                Ok(f) => f,
+                Err(_) => continue,
+            };
+            let mut damaged = f.clone();
+            let k = r.below((f.len() - 1) as u64) as usize;
+            damaged[k] = (damaged[k] ^ 0x55).max(1);
+            for n in big_caps {
+                if !overflow && n < f.len() {
+                    continue;
+                }
+                if overflow && n >= f.len() + 200 {
+                    continue;
+                }
+                out.push(fmt_acc(n, &t, &[f.clone()]));
+                out.push(fmt_acc(n, &t, &[damaged.clone()]));
+                for cut in [1usize, 2, 253, 254, 255, 256, 257, f.len() - 2, f.len() - 1] {
+                    if cut < f.len() {
+                        out.push(fmt_acc(n, &t, &[f[..cut].to_vec(), f[cut..].to_vec()]));
+                    }
+                }
+                // two frames back to back in one chunk, and a frame behind garbage ending in a zero
+                let mut two = f.clone();
+                two.extend_from_slice(&f);
+                out.push(fmt_acc(n, &t, &[two]));
+                let mut g = vec![0x07, 0x07, 0x00];
+                g.extend_from_slice(&f);
+                out.push(fmt_acc(n, &t, &[g]));
+                if pi % 3 == 0 && zero_free {
+                    out.push(fmt_acc(n, &t, &f.iter().map(|b| vec![*b]).collect::<Vec<_>>()));
+                }
             }
         }
     }
